@@ -2186,7 +2186,7 @@ package apd
 //@   props C04 C06 C01 C07 C13 C14
 //@   requires writable(d) && c != nil
 //@   assigns d
-//@   ghost gneg: bool, gC: int, gE: int, gech: int, gplus: bool, gz: int, ga: int, gdot: bool, ghase: bool, gesg: int, gez: int, gX: int, gk: int
+//@   ghost gneg: bool, gC: int, gE: int, gech: int, gplus: bool, gz: int, ga: int, gdot: bool, ghase: bool, gesg: int, gez: int, gX: int, gk: int, gk2: int
 // Every grammatical finite numeric string (C14): accepted, with the sign, coefficient and exponent it denotes, when the
 // written exponent and the number of fraction digits are within +-100000 and the value lies inside the context's limits.
 //@   assert before (*Decimal).setExponent#1: {C14} [exps_gr0] ctxsane(c) && GramText(bytes(orig), gneg, gplus, gz, gC, gdot, ga, ghase, gech, gesg, gez, gX) && gX <= 100000 && !gdot && !ghase ==> len(exps) == 0 && val(d.Coeff) == gC
@@ -2210,11 +2210,18 @@ package apd
 //@   ensures {C14} [gr_fin3c] ctxsane(c) && GramText(bytes(s), gneg, gplus, gz, gC, gdot, ga, ghase, gech, gesg, gez, gX) && gX <= 100000 && GramFrac(gz, gC, gdot, ga) <= 100000 && inlimits0(c, gC, GramExp(gz, gC, gdot, ga, ghase, gesg, gX)) && gdot && ghase ==> val(d.Coeff) == gC
 //@   ensures {C14} [gr_fin3d] ctxsane(c) && GramText(bytes(s), gneg, gplus, gz, gC, gdot, ga, ghase, gech, gesg, gez, gX) && gX <= 100000 && GramFrac(gz, gC, gdot, ga) <= 100000 && inlimits0(c, gC, GramExp(gz, gC, gdot, ga, ghase, gesg, gX)) && gdot && ghase ==> d.Exponent == GramExp(gz, gC, gdot, ga, ghase, gesg, gX)
 //@   assert before strconv.ParseInt#1: {C14} [rejw_exp] Ascii(bytes(orig)) && 0 <= gk && gk < len(bytes(orig)) && gk - (len(bytes(orig)) - len(bytes(now(s)))) > i ==> bytes(arg0)[gk - (len(bytes(orig)) - len(bytes(now(s)))) - i - 1] == LC(bytes(orig)[gk])
+//@   assert before strconv.ParseInt#1: {C14} [rejw_exp2] Ascii(bytes(orig)) && 0 <= gk2 && gk2 < len(bytes(orig)) && gk2 - (len(bytes(orig)) - len(bytes(now(s)))) > i ==> bytes(arg0)[gk2 - (len(bytes(orig)) - len(bytes(now(s)))) - i - 1] == LC(bytes(orig)[gk2])
+//@   assert before (*BigInt).SetString#1: {C14} [rejw_mant2] Ascii(bytes(orig)) && 0 <= gk && gk < gk2 && gk2 < len(bytes(orig)) && bytes(orig)[gk] == 46 && bytes(orig)[gk2] == 46 ==> 0 <= gk2 - SgnOff(bytes(orig)) - 1 && gk2 - SgnOff(bytes(orig)) - 1 < len(bytes(now(s))) && bytes(now(s))[gk2 - SgnOff(bytes(orig)) - 1] == 46
 //@   assert before (*BigInt).SetString#1: {C14} [rejw_mant] Ascii(bytes(orig)) && NumStart(bytes(orig)) && 0 <= gk && gk < len(bytes(orig)) && IsLetter(bytes(orig)[gk]) && bytes(orig)[gk] != 69 && bytes(orig)[gk] != 101 ==> bytes(now(s))[gk - ite(bytes(orig)[0] == 43 || bytes(orig)[0] == 45, 1, 0)] == LC(bytes(orig)[gk]) || bytes(now(s))[gk - ite(bytes(orig)[0] == 43 || bytes(orig)[0] == 45, 1, 0) - 1] == LC(bytes(orig)[gk])
 //@   ensures {C14} [rej_letter] Ascii(bytes(s)) && NumStart(bytes(s)) && 0 <= gk && gk < len(bytes(s)) && IsLetter(bytes(s)[gk]) && bytes(s)[gk] != 69 && bytes(s)[gk] != 101 ==> ret1 != nil
 //@   ensures {C14} [rej_nan_tail] Ascii(bytes(s)) && NanHead(bytes(s), SgnOff(bytes(s))) && SgnOff(bytes(s)) + 3 <= gk && gk < len(bytes(s)) && !IsDigit(bytes(s)[gk]) ==> ret1 != nil
 //@   ensures {C14} [rej_snan_tail] Ascii(bytes(s)) && SnanHead(bytes(s), SgnOff(bytes(s))) && SgnOff(bytes(s)) + 4 <= gk && gk < len(bytes(s)) && !IsDigit(bytes(s)[gk]) ==> ret1 != nil
 //@   ensures {C14} [rej_word] Ascii(bytes(s)) && len(bytes(s)) > SgnOff(bytes(s)) && IsLetter(bytes(s)[SgnOff(bytes(s))]) && !InfText(bytes(s), SgnOff(bytes(s))) && !NanHead(bytes(s), SgnOff(bytes(s))) && !SnanHead(bytes(s), SgnOff(bytes(s))) ==> ret1 != nil
+//@   ensures {C14} [rej_two_points] Ascii(bytes(s)) && 0 <= gk && gk < gk2 && gk2 < len(bytes(s)) && bytes(s)[gk] == 46 && bytes(s)[gk2] == 46 ==> ret1 != nil
+//@   ensures {C14} [rej_two_e] Ascii(bytes(s)) && NumStart(bytes(s)) && 0 <= gk && gk < gk2 && gk2 < len(bytes(s)) && (bytes(s)[gk] == 69 || bytes(s)[gk] == 101) && (bytes(s)[gk2] == 69 || bytes(s)[gk2] == 101) ==> ret1 != nil
+//@   ensures {C14} [rej_sign_inside] Ascii(bytes(s)) && 1 <= gk && gk < len(bytes(s)) && (bytes(s)[gk] == 43 || bytes(s)[gk] == 45) && bytes(s)[gk - 1] != 69 && bytes(s)[gk - 1] != 101 ==> ret1 != nil
+//@   ensures {C14} [rej_empty] len(bytes(s)) == SgnOff(bytes(s)) ==> ret1 != nil
+//@   ensures {C14} [rej_exp_empty] Ascii(bytes(s)) && NumStart(bytes(s)) && len(bytes(s)) >= 2 && (bytes(s)[len(bytes(s)) - 1] == 69 || bytes(s)[len(bytes(s)) - 1] == 101) ==> ret1 != nil
 //@   ensures {C14} [rej_char] Ascii(bytes(s)) && 0 <= gk && gk < len(bytes(s)) && BadChar(bytes(s)[gk]) ==> ret1 != nil
 //@   ensures {C14} [gr_inf] SgnText(bytes(s), gneg, gplus) && InfText(bytes(s), ite(gneg || gplus, 1, 0)) ==> ret1 == nil && ret0 == 0 && d.Form == Infinite && d.Negative == gneg && val(d.Coeff) == 0 && d.Exponent == 0
 //@   ensures {C14} [gr_nan] SgnText(bytes(s), gneg, gplus) && NanText(bytes(s), ite(gneg || gplus, 1, 0), gdot, gz, gC) && gC < 18446744073709551616 ==> ret1 == nil && ret0 == 0 && d.Form == NaN && d.Negative == gneg && val(d.Coeff) == 0 && d.Exponent == 0
